@@ -43,32 +43,52 @@ def modules_of(patch_text, wt):
     return sorted(mods)
 
 
+ENGINE = "proxy/src/services/lunar-engine"
+TOOLKIT = "proxy/src/libs/toolkit-core"
+META_FILES = {"patch.diff", "demo.txt", "meta.json", "check_replay.ops", "confirm.json"}
+
+
 def parse_demo(src, wt):
-    """returns (copies [(file, destdir-or-file)], run command string)"""
+    """returns (copies [(file, dest dir relative to wt)], run command string).
+    A hand-written confirm.json {"copies": [[file, destdir]], "cmd": "..."} overrides the heuristics."""
+    cj = os.path.join(src, "confirm.json")
+    if os.path.exists(cj):
+        c = json.load(open(cj))
+        return [tuple(x) for x in c["copies"]], c["cmd"]
     txt = open(os.path.join(src, "demo.txt")).read()
-    copies = []
-    for m in re.finditer(r"cp\s+(?:\S*?/)?SEEDS/s\d+/(\S+)\s+(\S+)", txt):
-        copies.append((m.group(1), m.group(2)))
-    lines = txt.splitlines()
-    cmd = None
-    for i, l in enumerate(lines):
-        if re.search(r"\b(go test|go run|python3?)\b", l) and "cp " not in l:
-            # gather the command block: previous lines ending with && or \ belong to it
-            j = i
-            while j > 0 and re.search(r"(&&|\\)\s*$", lines[j - 1]):
-                j -= 1
-            k = i
-            while re.search(r"(&&|\\)\s*$", lines[k]) and k + 1 < len(lines):
-                k += 1
-            block = " ".join(x.strip().rstrip("\\").strip() for x in lines[j:k + 1])
-            # also pick up a preceding plain `cd …` / `export …` line pair
-            pre = []
-            jj = j - 1
-            while jj >= 0 and re.match(r"\s*(cd |export )", lines[jj]):
-                pre.insert(0, lines[jj].strip())
-                jj -= 1
-            cmd = " && ".join(pre + [block])
+    demos = [f for f in sorted(os.listdir(src)) if f not in META_FILES and not f.startswith(".")]
+    # the run command: the first line mentioning `go test` / `python3 <demo>`
+    line = None
+    for l in txt.splitlines():
+        if re.search(r"\bgo test\b", l) or (re.search(r"\bpython3?\b", l) and any(d in l for d in demos)):
+            line = l
             break
+    if line is None:
+        return [], None
+    m = re.search(r"(go test[^`\n]*|python3?[^`\n]*)", line)
+    core = m.group(1).strip().rstrip("\\").rstrip("&").strip().rstrip("` ")
+    copies = []
+    if core.startswith("go test"):
+        pk = re.search(r"(?<![\w.])\./([\w./-]+)", core)
+        pkg = pk.group(1).rstrip("/").rstrip(".") if pk else ""
+        pkg = re.sub(r"/\.\.\.$", "", pkg)
+        mod = None
+        for cand in (ENGINE, TOOLKIT, "proxy/src/libs/shared-model", "proxy/src/services/aggregation-output-plugin"):
+            if os.path.isdir(os.path.join(wt, cand, pkg)) and pkg:
+                mod = cand
+                break
+        if mod is None:
+            return [], None
+        for d in demos:
+            if d.endswith(".go"):
+                copies.append((d, os.path.join(mod, pkg)))
+        cmd = "cd %s && %s" % (mod, core)
+    else:
+        # python demo: run it from the seed directory against the worktree
+        cmd = core
+        for d in demos:
+            cmd = re.sub(r"(?:\S*/)?" + re.escape(d), os.path.join(src, d), cmd)
+        cmd = "cd %s && %s" % (wt, cmd)
     return copies, cmd
 
 
@@ -106,11 +126,22 @@ def main():
         step("git apply patch.diff", rc == 0, out)
         mods = modules_of(open(patch).read(), wt)
         is_go = bool(mods)
+        if any(m.endswith("toolkit-core") for m in mods) and not any(m.endswith("lunar-engine") for m in mods):
+            mods.append(os.path.join(wt, ENGINE))   # the engine's suite exercises toolkit-core through its replace
         for m in mods:
-            rc, out = sh(["go", "build", "./..."], m)
-            step("go build ./... in " + os.path.relpath(m, wt), rc == 0, out)
+            if m.endswith("toolkit-core"):
+                # `go build ./...` fails there on the unchanged tree too (package network); build/test what can be
+                pk = subprocess.run("go list -e ./... | grep -v /network | grep -v /ai$", cwd=m, env=GOENV, shell=True,
+                                    stdout=subprocess.PIPE, text=True).stdout.split()
+                rc, out = sh(["go", "build"] + pk, m)
+                step("go build (all but network/ai) in " + os.path.relpath(m, wt), rc == 0, out)
+                tests = ["go", "test", "-vet=off", "-count=1", "-timeout", "25m"] + pk
+            else:
+                rc, out = sh(["go", "build", "./..."], m)
+                step("go build ./... in " + os.path.relpath(m, wt), rc == 0, out)
+                tests = ["go", "test", "-vet=off", "-count=1", "-timeout", "25m", "./..."]
             if not skip_suite:
-                rc, out = sh(["go", "test", "-vet=off", "-count=1", "-timeout", "25m", "./..."], m, timeout=3000)
+                rc, out = sh(tests, m, timeout=3000)
                 fails = set(re.findall(r"^\s*--- FAIL: (\S+)", out, re.M))
                 fails = {f.split("/")[0] for f in fails}
                 # timing-sensitive tests flake on a loaded machine: re-run unexpected failures alone
@@ -128,18 +159,19 @@ def main():
                 # the suite dirties two tracked/untracked yaml files; restore
                 sh("git checkout -- proxy/src/services/lunar-engine/streams/validation/policies.yaml 2>/dev/null; "
                    "rm -f proxy/src/services/lunar-engine/streams/policies.yaml", wt, shell=True)
+        cj = os.path.join(dst, "confirm.json")
+        if os.path.exists(cj) and json.load(open(cj)).get("suite_cmd") and not skip_suite:
+            sc = json.load(open(cj))["suite_cmd"]
+            rcs, outs = sh(sc, wt, shell=True, timeout=1800)
+            step("existing tests that can run offline: " + sc, rcs == 0, outs)
         copies, cmd = parse_demo(dst, wt)
         if not cmd:
             step("parse demo.txt", False, "no run command found")
         else:
             copied = []
             for fn, dest in copies:
-                d = os.path.join(wt, dest)
-                if os.path.isdir(d) or dest.endswith("/"):
-                    os.makedirs(d, exist_ok=True)
-                    d = os.path.join(d, fn)
-                else:
-                    os.makedirs(os.path.dirname(d), exist_ok=True)
+                d = os.path.join(wt, dest, fn)
+                os.makedirs(os.path.dirname(d), exist_ok=True)
                 shutil.copy(os.path.join(dst, fn), d)
                 copied.append(d)
             conf["demo_cmd"] = cmd
